@@ -6,6 +6,10 @@ import gate
 
 CONFIGS = ['prod', 'testutils']
 EXPLANATION = (
+    'SEM (primary): the five keyspace-actor handlers are interpreted sequentially on abstract messages (pre-state of the key x every answer storage can giv'
+    'e, incl. a bulk call failing part-way; the real OrSWotSet code runs underneath): nothing is written for an operation the set refuses, a mutation reach'
+    'es the set exactly when storage reported it written, the change stamp is bumped whenever the set changes, a purge forgets exactly what storage removed'
+    '; MSEM: the in-memory backend against the reference key-value model. Structural fallback (used only when a construct is not modelled): '
     'Static decision of necessary structural clauses of C02 on the MIR of every keyspace-actor handler that '
     'both writes storage and folds the replicated set (anchors found by role): '
     'O1 the set is folded only on the success edge of the storage write (single ops), never on its error edge, the result is '
